@@ -8,6 +8,20 @@ behaviour of the `with` statement as an explicit clause).  Opaque functions
 -/
 namespace ParamVerif.TimeDyn
 
+/-- time values: `Time.time_type` is `int` or `fractions.Fraction`; both embed in the rationals, and
+Python compares and hashes them as such (`Fraction(2) == 2`) -/
+abbrev TimeV := Rat
+
+/-- `Time.time_type`: the callable every user-supplied time goes through -/
+inductive TimeType where
+  | int      -- `int(x)`: truncation towards zero
+  | frac     -- `fractions.Fraction(x)`: exact
+  deriving DecidableEq, Repr
+
+def TimeType.conv : TimeType → TimeV → TimeV
+  | .int, q => ((q.num.tdiv q.den : Int) : Rat)
+  | .frac, q => q
+
 /-- Opaque functions.  `hash name seed t` stands for
 `numbergen.Hash(name + str(seed), 2)(t, param.random_seed)`
 (numbergen/__init__.py `TimeAwareRandomState._initialize_random_state`, `_hash_and_seed`),
@@ -15,20 +29,23 @@ namespace ParamVerif.TimeDyn
 `next st` for drawing one number (`random_generator.uniform(lbound, ubound)`, `UniformRandom.__call__`):
 the value and the advanced state; `init k` for the state a generator of kind `k` is constructed with. -/
 structure Env (H S V : Type) where
-  hash : String → Int → Int → H
+  hash : String → Int → TimeV → H
   reseed : H → S
   next : S → V × S
   init : Nat → S
 
 /-- value of a time-dependent generator at time `t`: reseed from `(name, seed, t)`, then draw -/
-def Env.tdVal {H S V} (env : Env H S V) (name : String) (seed : Int) (t : Int) : V :=
+def Env.tdVal {H S V} (env : Env H S V) (name : String) (seed : Int) (t : TimeV) : V :=
   (env.next (env.reseed (env.hash name seed t))).1
 
+/-- Python `x % p` for a rational `x` and a positive integer `p`: `x - p * floor(x / p)` -/
+def pyMod (x : TimeV) (p : Int) : TimeV := x - (p : Rat) * (((x / (p : Rat)).floor : Int) : Rat)
+
 /-- the time `numbergen.TimeSampledFn` evaluates its function at: the latest sample point
-`k * period - offset ≤ now` (Python `%` with a positive divisor is non-negative, as `Int.emod`).
-src: numbergen/__init__.py TimeSampledFn.__call__ -/
-def sampleTime (now period offset : Int) : Int :=
-  (now + offset) - (now + offset) % period - offset
+`k * period - offset ≤ now` (always an integer for integer period and offset, so the conversion by
+`time_type` on the way there changes nothing).  src: numbergen/__init__.py TimeSampledFn.__call__ -/
+def sampleTime (now : TimeV) (period offset : Int) : TimeV :=
+  (now + (offset : Rat)) - pyMod (now + (offset : Rat)) period - (offset : Rat)
 
 inductive GenKind where
   | td (name : String) (seed : Int)     -- numbergen RandomDistribution(name=, seed=, time_dependent=True)
@@ -51,8 +68,8 @@ structure Gen (S V : Type) where
   rng : Option S := none           -- state of the generator's random stream; none = as constructed (`env.init`)
   calls : Nat                      -- values produced so far (position in the stream)
   last : Option V                  -- _Dynamic_last   (None = placeholder)
-  lastTime : Option Int            -- _Dynamic_time; none = the marker `_NO_TIME`, unequal to every time
-  saved : List (Option V × Option Int)
+  lastTime : Option TimeV          -- _Dynamic_time; none = the marker `_NO_TIME`, unequal to every time
+  saved : List (Option V × Option TimeV)
   fail : Option (Nat × Exc) := none   -- a fault: the k-th call (0-based) raises instead of returning
   deriving DecidableEq, Repr
 
@@ -79,10 +96,11 @@ inductive PType where
 
 /-- src: param/parameters.py Time (`_time`, `timestep`, `until`, `_pushed_state`, `in_context`) -/
 structure Clock where
-  time : Int
+  time : TimeV
+  timeType : TimeType := .int               -- not part of the pushed state
   timestep : Int
   untl : Option Int                        -- none = Time.forever
-  pushed : List (Int × Int × Option Int)    -- most recent first
+  pushed : List (TimeV × Int × Option Int)  -- most recent first
   inContext : Option Bool                   -- the attribute does not exist before the first __enter__
   deriving DecidableEq, Repr
 
@@ -112,8 +130,9 @@ inductive Src where
   deriving DecidableEq, Repr
 
 inductive Op where
-  | setTime (t : Int)                          -- time_fn(t)
-  | advance (d : Int)                          -- time_fn += d / time_fn -= -d
+  | setTime (t : TimeV)                        -- time_fn(t): `_time = time_type(t)`
+  | setTimeType (t : TimeV) (tt : TimeType)    -- time_fn(t, time_type=tt)
+  | advance (d : TimeV)                        -- time_fn += d / time_fn -= -d: `_time + time_type(d)`
   | setStep (s : Int)                          -- time_fn.timestep = s
   | setUntil (u : Option Int)                  -- time_fn.until = u
   | read (tg : Target) (p : Nat)               -- getattr(obj, p)
@@ -156,7 +175,7 @@ def resolve (w : World S V) (tg : Target) (p : Nat) : Option Slot :=
 
 /-- calling the generator.  src: numbergen RandomDistribution.__call__ (`_hash_and_seed` at the
 current time, then draw) / an arbitrary callable -/
-def Gen.produce (env : Env H S V) (g : Gen S V) (now : Int) : V × Gen S V :=
+def Gen.produce (env : Env H S V) (g : Gen S V) (now : TimeV) : V × Gen S V :=
   match g.kind with
   | .td name seed =>
     -- `_hash_and_seed()`: whatever state the stream was in, it is re-seeded from (name, seed, now)
@@ -171,7 +190,7 @@ def Gen.produce (env : Env H S V) (g : Gen S V) (now : Int) : V × Gen S V :=
     (r.1, { g with calls := g.calls + 1, rng := some r.2 })
 
 /-- src: param/parameters.py Dynamic._produce_value -/
-def produceValue (env : Env H S V) (dynTD : Bool) (now : Int) (g : Gen S V) (force : Bool) : Option V × Gen S V :=
+def produceValue (env : Env H S V) (dynTD : Bool) (now : TimeV) (g : Gen S V) (force : Bool) : Option V × Gen S V :=
   if !dynTD then
     -- (time_fn is None) or (not self.time_dependent)
     let r := g.produce env now
@@ -189,7 +208,7 @@ def Gen.failsNow (g : Gen S V) : Option Exc :=
   | none => none
 
 /-- whether `_produce_value` calls the generator -/
-def willCall (dynTD : Bool) (now : Int) (g : Gen S V) (force : Bool) : Bool :=
+def willCall (dynTD : Bool) (now : TimeV) (g : Gen S V) (force : Bool) : Bool :=
   !dynTD || force || some now != g.lastTime
 
 /-- src: param/parameters.py Number.__get__ -> _validate of a dynamically generated value -/
@@ -200,7 +219,7 @@ def validateRead (pt : PType) (v : Option V) : Res V :=
 
 /-- reading through one generator object.
 src: param/parameters.py Dynamic._produce_value as called by __get__ / _force -/
-def readGen (env : Env H S V) (dynTD : Bool) (now : Int) (pt : PType) (g : Gen S V) (force : Bool) : Res V × Gen S V :=
+def readGen (env : Env H S V) (dynTD : Bool) (now : TimeV) (pt : PType) (g : Gen S V) (force : Bool) : Res V × Gen S V :=
   match (if willCall dynTD now g force then g.failsNow else none) with
   | some e =>
     -- `value = _produce_value(gen)` raises: neither `_Dynamic_last` nor `_Dynamic_time` is assigned
@@ -212,7 +231,7 @@ def readGen (env : Env H S V) (dynTD : Bool) (now : Int) (pt : PType) (g : Gen S
 
 /-- `TimeSampledFn.__call__` visits its sample time inside `with self.time_fn`: on the way out the
 time, timestep, until and the stack are as before, and `in_context` has been (re)assigned -/
-def entersCtx (dynTD : Bool) (now : Int) (g : Gen S V) (force : Bool) : Bool :=
+def entersCtx (dynTD : Bool) (now : TimeV) (g : Gen S V) (force : Bool) : Bool :=
   willCall dynTD now g force && g.failsNow.isNone &&
   (match g.kind with | .sampled _ _ _ _ => true | _ => false)
 
@@ -321,7 +340,8 @@ def Clock.exit (c : Clock) : Option Clock :=
   match c.pushed with
   | [] => none
   | (t, s, u) :: rest =>
-    some { time := t, timestep := s, untl := u, pushed := rest, inContext := some (!rest.isEmpty) }
+    -- the saved `_time` is put back as it is (not through `time_type`, which may have been switched since)
+    some { c with time := t, timestep := s, untl := u, pushed := rest, inContext := some (!rest.isEmpty) }
 
 /-- leaving the `with` block.  src: param/parameters.py Time.__exit__ -/
 def exitCtx (rw : Res V × World S V) : Res V × World S V :=
@@ -336,8 +356,10 @@ def exitCtx (rw : Res V × World S V) : Res V × World S V :=
 mutual
 /-- one statement -/
 def runOp (env : Env H S V) : Op → World S V → Res V × World S V
-  | .setTime t, w => (.ok .unit, { w with clock := { w.clock with time := t } })
-  | .advance d, w => (.ok .unit, { w with clock := { w.clock with time := w.clock.time + d } })
+  | .setTime t, w => (.ok .unit, { w with clock := { w.clock with time := w.clock.timeType.conv t } })
+  | .setTimeType t tt, w => (.ok .unit, { w with clock := { w.clock with timeType := tt, time := tt.conv t } })
+  | .advance d, w =>
+    (.ok .unit, { w with clock := { w.clock with time := w.clock.time + w.clock.timeType.conv d } })
   | .setStep s, w => (.ok .unit, { w with clock := { w.clock with timestep := s } })
   | .setUntil u, w => (.ok .unit, { w with clock := { w.clock with untl := u } })
   | .read tg p, w => readSlot env w tg p false
@@ -372,7 +394,8 @@ end
 /-! ### Observable trace -/
 
 structure Snap where
-  time : Int
+  time : TimeV
+  timeType : TimeType
   timestep : Int
   untl : Option Int
   depth : Nat
@@ -380,7 +403,7 @@ structure Snap where
   deriving DecidableEq, Repr
 
 def Clock.snap (c : Clock) : Snap :=
-  { time := c.time, timestep := c.timestep, untl := c.untl, depth := c.pushed.length, inContext := c.inContext }
+  { time := c.time, timeType := c.timeType, timestep := c.timestep, untl := c.untl, depth := c.pushed.length, inContext := c.inContext }
 
 inductive EvKind where
   | op | enter | exit
@@ -398,7 +421,7 @@ def Target.tag : Target → String
 
 /-- which statement an event belongs to -/
 def Op.tag : Op → String
-  | .setTime _ => "setTime" | .advance _ => "advance" | .setStep _ => "setStep" | .setUntil _ => "setUntil"
+  | .setTime _ => "setTime" | .setTimeType _ _ => "setTimeType" | .advance _ => "advance" | .setStep _ => "setStep" | .setUntil _ => "setUntil"
   | .read tg p => s!"read:{tg.tag}:{p}" | .inspect tg p => s!"inspect:{tg.tag}:{p}"
   | .force tg p => s!"force:{tg.tag}:{p}"
   | .push i => s!"push:{i}" | .pop i => s!"pop:{i}"
@@ -409,12 +432,12 @@ structure Ev (V : Type) where
   tag : String
   res : Res V
   clock : Snap
-  caches : List (Option V × Option Int × Nat)     -- per generator: last, lastTime, len(saved)
+  caches : List (Option V × Option TimeV × Nat)     -- per generator: last, lastTime, len(saved)
   touched : Option Touched                  -- read / inspect / force of a dynamic value
   gens : List Nat                           -- push / pop: the generators visited
   deriving Repr
 
-def cachesOf (w : World S V) : List (Option V × Option Int × Nat) :=
+def cachesOf (w : World S V) : List (Option V × Option TimeV × Nat) :=
   w.gens.map fun g => (g.last, g.lastTime, g.saved.length)
 
 def touchedOf (w : World S V) : Op → Option Touched
